@@ -11,7 +11,13 @@ pub const B: [u8; 20] = [
 	0xfd, 0xfe, 0xff,
 ];
 
+pub type NodeFn = fn(&VT, &Shape, &[u8]) -> Result<(&'static str, bool), String>;
+
 pub struct Explore<'a> {
+	/// what is checked at every node (C03: decode vs reference); returns (outcome class, whether
+	/// longer strings can behave differently)
+	pub nodefn: NodeFn,
+	pub property: &'static str,
 	pub vt: &'a VT,
 	pub shape: Shape,
 	pub alphabet: &'a [u8],
@@ -53,7 +59,7 @@ impl<'a> Explore<'a> {
 		self.per_depth[prefix.len()] += 1;
 		acc.evaluations += 1;
 		acc.transitions += 2;
-		match node(self.vt, &self.shape, prefix) {
+		match (self.nodefn)(self.vt, &self.shape, prefix) {
 			Ok((class, open)) => {
 				acc.states += 1;
 				acc.traces += 1;
@@ -75,14 +81,60 @@ impl<'a> Explore<'a> {
 				}
 			},
 			Err(detail) => acc.violate(Violation {
-				property: "C03".into(),
+				property: self.property.into(),
 				sub: sub.into(),
-				key: format!("C03|{}|decode-vs-reference", self.vt.name),
+				key: format!("{}|{}|{}", self.property, self.vt.name, sub),
 				detail,
 				case: decode_case(sub, self.vt, prefix),
 			}),
 		}
 	}
+}
+
+impl<'a> Explore<'a> {
+	pub fn new(property: &'static str, nodefn: NodeFn, vt: &'a VT, alphabet: &'a [u8], max_depth: usize, cap: u64) -> Self {
+		Explore { nodefn, property, vt, shape: (vt.shape)(), alphabet, max_depth, cap, runs: 0, capped: false, per_depth: vec![0; max_depth + 1] }
+	}
+}
+
+/// Whether a decode of `prefix` looks past its end (crate through a recording input, or reference).
+pub fn open_node(vt: &VT, shape: &Shape, prefix: &[u8]) -> bool {
+	let mut lazy = LazyInput::new(prefix);
+	let _ = guarded(|| (vt.decode_dyn)(&mut lazy));
+	let (_, ref_touched) = ref_dec_lazy(shape, prefix);
+	lazy.touched_end || lazy.asked_len || ref_touched
+}
+
+/// Lazy exploration of all byte strings over `alphabet` up to `max_depth` for every type in `types`
+/// with the given node check; iterative deepening under a per-type run cap when `cap` is finite.
+pub fn explore_all(property: &'static str, sub: &'static str, nodefn: NodeFn, types: &[&VT], alphabet: &[u8], max_depth: usize, cap: u64, skip_zw: bool) -> Acc {
+	par(types, |vt, acc| {
+		heartbeat(&format!("{} {}", vt.name, sub));
+		if skip_zw && zw_container(&(vt.shape)()) {
+			acc.add("skipped_zero_width_containers", 1);
+			return;
+		}
+		if cap == u64::MAX {
+			let mut ex = Explore::new(property, nodefn, vt, alphabet, max_depth, cap);
+			ex.go(&mut vec![], acc, sub);
+			return;
+		}
+		for d in 1..=max_depth {
+			let mut scratch = Acc::default();
+			let mut ex = Explore::new(property, nodefn, vt, alphabet, d, cap);
+			ex.go(&mut vec![], &mut scratch, sub);
+			if ex.capped || d == max_depth || ex.per_depth[d] == 0 {
+				if ex.capped {
+					scratch.add("types_capped", 1);
+					scratch.add(&format!("covered_depth_{}", d - 1), 1);
+				} else {
+					scratch.add(&format!("covered_depth_{}", d), 1);
+				}
+				acc.merge(scratch);
+				break;
+			}
+		}
+	})
 }
 
 /// Types whose zero-width elements make a 4-byte count prefix cost 2^30 iterations or nodes.
@@ -99,7 +151,7 @@ pub fn zw_container(shape: &Shape) -> bool {
 	}
 }
 
-const ALL: [u8; 256] = {
+pub const ALL: [u8; 256] = {
 	let mut a = [0u8; 256];
 	let mut i = 0;
 	while i < 256 {
@@ -197,7 +249,8 @@ pub fn run(tier: Tier, reg: &[VT]) -> Report {
 	let acc = par(reg, |vt, acc| {
 		heartbeat(&format!("{} (a)", vt.name));
 		let shape = (vt.shape)();
-		let mut ex = Explore { vt, shape, alphabet: &ALL, max_depth: l_all, cap: u64::MAX, runs: 0, capped: false, per_depth: vec![0; l_all + 1] };
+		let _ = shape;
+		let mut ex = Explore::new("C03", node, vt, &ALL, l_all, u64::MAX);
 		ex.go(&mut vec![], acc, "C03.bytes");
 	});
 	rep.part(
@@ -217,7 +270,7 @@ pub fn run(tier: Tier, reg: &[VT]) -> Report {
 		if zw_container(&shape) {
 			return;
 		}
-		let mut ex = Explore { vt, shape, alphabet: &ALL, max_depth: l4, cap: u64::MAX, runs: 0, capped: false, per_depth: vec![0; l4 + 1] };
+		let mut ex = Explore::new("C03", node, vt, &ALL, l4, u64::MAX);
 		ex.go(&mut vec![*first], acc, "C03.bytes");
 	});
 	rep.part("(a) small-alphabet types", &format!("every byte string of length 1..={} for {} small-alphabet types", l4, small.len()), acc);
@@ -236,7 +289,7 @@ pub fn run(tier: Tier, reg: &[VT]) -> Report {
 		// iterative deepening: a depth counts as covered only if it completed under the cap
 		for d in 1..=max_d {
 			let mut scratch = Acc::default();
-			let mut ex = Explore { vt, shape: shape.clone(), alphabet: &B, max_depth: d, cap, runs: 0, capped: false, per_depth: vec![0; d + 1] };
+			let mut ex = Explore::new("C03", node, vt, &B, d, cap);
 			ex.go(&mut vec![], &mut scratch, "C03.bytes");
 			let capped = ex.capped;
 			if !capped {
